@@ -102,6 +102,9 @@ def main(argv=None):
         return replay_file(prop, a.replay)
     seed = int(os.environ.get("VERIF_SEED", "0"))
     t0 = time.time()
+    import glob
+    for f in glob.glob(os.path.join(ROOT, "replays", f"{prop}_*.json")):
+        os.remove(f)
     mod = load(prop)
     tier = a.tier
     tasks = []
@@ -128,7 +131,7 @@ def main(argv=None):
 def finish(prop, tier, seed, mod, results, pre, wall):
     findings = known_findings()
     agg = dict(paths=0, decisions=0, forks=0, solver_calls=0, solver_s=0.0, obligations=0, discharged=0,
-               structural=0, undecided=0, violated=0, unconfirmed=0, validated=0, validation_skipped=0,
+               structural=0, structural_confirmed=0, undecided=0, violated=0, unconfirmed=0, validated=0, validation_skipped=0,
                maybe_infeasible=0, aborted_paths=0)
     incomplete = False
     samples, errors, violations, undec = [], [], [], []
@@ -199,7 +202,8 @@ def finish(prop, tier, seed, mod, results, pre, wall):
             traces_validated_against_impl=agg["validated"],
             samples=samples[:12] or [dict(note="no obligation sample recorded")],
             obligations=agg["obligations"], discharged=agg["discharged"],
-            discharged_by_normal_form=agg["structural"], undecided=agg["undecided"] + agg["unconfirmed"],
+            discharged_by_normal_form=agg["structural"],
+            normal_form_identities_confirmed_by_solver=agg["structural_confirmed"], undecided=agg["undecided"] + agg["unconfirmed"],
             unconfirmed_sat=agg["unconfirmed"], forks=agg["forks"], solver_queries=agg["solver_calls"],
             solver_s=round(agg["solver_s"], 3), validation_skipped=agg["validation_skipped"],
             paths_with_unknown_feasibility=agg["maybe_infeasible"], aborted_paths=agg["aborted_paths"],
@@ -220,7 +224,7 @@ def finish(prop, tier, seed, mod, results, pre, wall):
     with open(os.path.join(ROOT, "evidence", f"{prop}.json"), "w") as f:
         json.dump(ev, f, indent=1, default=str)
     print(f"{prop} tier={tier}: paths={agg['paths']} decisions={agg['decisions']} obligations={agg['obligations']} "
-          f"discharged={agg['discharged']} (normal-form {agg['structural']}) undecided={agg['undecided'] + agg['unconfirmed']} "
+          f"discharged={agg['discharged']} (normal-form {agg['structural']}, solver-confirmed {agg['structural_confirmed']}) undecided={agg['undecided'] + agg['unconfirmed']} "
           f"validated={agg['validated']} violations={len(new_viol)} known={len(known_hits)} errors={len(errors)} "
           f"solver_s={agg['solver_s']:.1f} wall={wall:.1f}s")
     if new_viol:
